@@ -88,10 +88,25 @@ pub fn check_minimize(rep: &mut Report, auto: &mut Automaton, origin: &str, kind
         rep.inc("nerode_index_compared");
     }
     // every state of the result carries the residual language of some original state
-    for s2 in 0..after.n() {
-        let found = (0..before2.n()).any(|s1| after.diff_from(s2 as u32, &before2, s1 as u32).is_none());
-        if !found {
-            bad!("invented-state", "state {} of the minimized automaton has a residual language that no original state had", s2);
+    {
+        // residual-language classes of the disjoint union of both automata (one partition refinement)
+        let (nb, na) = (before2.n(), after.n());
+        let a = after.a;
+        let mut t = Vec::with_capacity((nb + na) * a);
+        t.extend_from_slice(&before2.t);
+        t.extend(after.t.iter().map(|&x| x + nb as u32));
+        let mut f = before2.f.clone();
+        f.extend_from_slice(&after.f);
+        let both = Dfa { a, t, f, start: 0 };
+        let (cls, ncls) = both.hopcroft_classes();
+        let mut has_original = vec![false; ncls];
+        for s1 in 0..nb {
+            has_original[cls[s1] as usize] = true;
+        }
+        for s2 in 0..na {
+            if !has_original[cls[nb + s2] as usize] {
+                bad!("invented-state", "state {} of the minimized automaton has a residual language that no original state had", s2);
+            }
         }
     }
     // bookkeeping
